@@ -39,7 +39,7 @@ def run(tier, selftest):
             docs.append((t, s))
             meta.append(c)
     results = pc.run_loads(binp, docs, PID)
-    events = [pc.load_event(r, s, None) for r, (t, s) in zip(results, docs)]
+    events = [pc.load_event(r, s, None, built_from=c) for r, (t, s), c in zip(results, docs, meta)]
     npairs = 0
     for i in range(0, len(results), 2):
         events.append(pc.pair_event(results[i], results[i + 1], no_ifdata="IF_DATA" not in docs[i][0]))
